@@ -18,7 +18,10 @@ bins_needed = set()
 plan = {}
 for pid in pids:
     mod = importlib.import_module("gen." + pid.lower())
-    bins = getattr(mod, "HARNESS_BINS", [getattr(mod, "HARNESS_BIN", pid.lower())])
+    bins = list(getattr(mod, "HARNESS_BINS", [getattr(mod, "HARNESS_BIN", pid.lower())]))
+    for npid in (getattr(mod, "NEIGHBOURS", None) or {}):
+        if npid.lower() not in bins:
+            bins.append(npid.lower())           # neighbouring entry points (check.py step 2d)
     plan[pid] = (mod, list(bins))
     bins_needed.update(bins)
 cmd = ["cargo", "+nightly", "build", "--offline", "--features", "nightly", "--target-dir", TD] + [x for b in sorted(bins_needed) for x in ("--bin", b)]
@@ -36,7 +39,16 @@ for pid in pids:
     os.makedirs(pdir)
     env = dict(base_env, LLVM_PROFILE_FILE=pdir + "/%m-%p.profraw")
     lines = [c[0] for c in mod.gen(random.Random(1000003 + int(pid[1:])), "quick")]
-    route = getattr(mod, "ROUTE", None) or (lambda l, _b=bins[0]: _b)
+    route0 = getattr(mod, "ROUTE", None) or (lambda l, _b=bins[0]: _b)
+    nroute = {}
+    import re as _re
+    for npid, rx in (getattr(mod, "NEIGHBOURS", None) or {}).items():
+        nmod = importlib.import_module("gen." + npid.lower())
+        for c in nmod.gen(random.Random(7 + int(npid[1:])), "quick"):
+            if _re.match(rx, c[0]) and c[0] not in nroute:
+                nroute[c[0]] = npid.lower()
+                lines.append(c[0])
+    route = lambda l: nroute.get(l) or route0(l)
     objs = []
     for b in bins:
         sub = [l for l in lines if route(l) == b]
